@@ -359,8 +359,77 @@ func matchDecoder(w *World, typ string) func(ssa.CallInstruction) bool {
 			return false
 		}
 		res := f.Signature.Results()
-		return res.Len() >= 1 && typeKey(res.At(0).Type()) == typ
+		if res.Len() < 1 || typeKey(res.At(0).Type()) != typ {
+			return false
+		}
+		// a decoder delegating to a (generic) helper decoder of the same type: the call inside the decoder is not
+		// a call site of "the decoder", its caller's is
+		if p := c.Parent(); p != nil && p.Pkg != nil && p.Pkg.Pkg.Path() == modPath+"/pkg/provider/xml" {
+			if pr := p.Signature.Results(); pr.Len() >= 1 && typeKey(pr.At(0).Type()) == typ {
+				return false
+			}
+		}
+		return true
 	}
+}
+
+// delegateOf: fn does nothing but `return g(args...)` for a module function g with a body (all results of the
+// one call are returned, in order, on every return): g and the call; otherwise nil. Following it lets a rule about
+// "what DecodeX does" look at the helper that does it.
+func delegateOf(fn *ssa.Function) (*ssa.Function, *ssa.Call) {
+	rets := returnsOf(fn)
+	if len(rets) == 0 {
+		return nil, nil
+	}
+	var del *ssa.Call
+	for _, ret := range rets {
+		var c *ssa.Call
+		switch len(ret.Results) {
+		case 0:
+			return nil, nil
+		case 1:
+			c, _ = ret.Results[0].(*ssa.Call)
+		default:
+			for i, rv := range ret.Results {
+				e, ok := rv.(*ssa.Extract)
+				if !ok || e.Index != i {
+					return nil, nil
+				}
+				cc, isC := e.Tuple.(*ssa.Call)
+				if !isC || c != nil && cc != c {
+					return nil, nil
+				}
+				c = cc
+			}
+		}
+		if c == nil || del != nil && del != c {
+			return nil, nil
+		}
+		del = c
+	}
+	g := calleeOf(del)
+	if g == nil || g.Blocks == nil || g.Pkg == nil || !isModulePath(g.Pkg.Pkg.Path()) || isMockPath(g.Pkg.Pkg.Path()) {
+		return nil, nil
+	}
+	// nothing else happens in fn: no other call
+	for _, c := range callsIn(fn) {
+		if c != ssa.CallInstruction(del) {
+			return nil, nil
+		}
+	}
+	return g, del
+}
+
+// throughDelegation follows delegateOf up to three hops.
+func throughDelegation(fn *ssa.Function) *ssa.Function {
+	for hops := 0; hops < 3 && fn != nil; hops++ {
+		g, _ := delegateOf(fn)
+		if g == nil {
+			break
+		}
+		fn = g
+	}
+	return fn
 }
 
 func matchAnyCall(ms ...func(ssa.CallInstruction) bool) func(ssa.CallInstruction) bool {
@@ -497,6 +566,101 @@ func nonDebugRefs(v ssa.Value) []ssa.Instruction {
 // store to that cell can intervene (same function; cell written only with v, or loads in
 // the block of the store after it).
 func (fx *Facts) aliasesOf(v ssa.Value) []ssa.Value {
+	out := fx.aliasesOf0(v)
+	// a value handed to a module function / local closure that returns that parameter unchanged
+	// (`report := func(err error) error { errF(err); return err }`) lives on in the call's result
+	seen := map[ssa.Value]bool{}
+	for i := 0; i < len(out) && i < 64; i++ {
+		x := out[i]
+		if seen[x] {
+			continue
+		}
+		seen[x] = true
+		for _, ref := range nonDebugRefs(x) {
+			call, ok := ref.(*ssa.Call)
+			if !ok || call.Call.IsInvoke() {
+				continue
+			}
+			var tgt *ssa.Function
+			if f := calleeOf(call); f != nil {
+				tgt = f
+			} else if _, isB := call.Call.Value.(*ssa.Builtin); !isB {
+				if tg, ok := fx.funcTargets(call.Call.Value); ok && len(tg) == 1 {
+					tgt = tg[0]
+				}
+			}
+			if tgt == nil || tgt.Blocks == nil || tgt.Pkg == nil || !isModulePath(tgt.Pkg.Pkg.Path()) {
+				continue
+			}
+			idx, isID := identityParam(tgt)
+			if !isID || idx >= len(call.Call.Args) || call.Call.Args[idx] != x {
+				continue
+			}
+			for _, a := range fx.aliasesOf0(call) {
+				if !seen[a] {
+					out = append(out, a)
+				}
+			}
+		}
+	}
+	return out
+}
+
+// throughIdentity: v is the result of calling a module function / local closure that returns one of its parameters
+// unchanged: the argument (repeatedly).
+func (fx *Facts) throughIdentity(v ssa.Value) ssa.Value {
+	for d := 0; d < 4; d++ {
+		call, ok := v.(*ssa.Call)
+		if !ok || call.Call.IsInvoke() {
+			return v
+		}
+		var tgt *ssa.Function
+		if f := calleeOf(call); f != nil {
+			tgt = f
+		} else if _, isB := call.Call.Value.(*ssa.Builtin); !isB {
+			if tg, ok := fx.funcTargets(call.Call.Value); ok && len(tg) == 1 {
+				tgt = tg[0]
+			}
+		}
+		if tgt == nil || tgt.Blocks == nil || tgt.Pkg == nil || !isModulePath(tgt.Pkg.Pkg.Path()) {
+			return v
+		}
+		idx, isID := identityParam(tgt)
+		if !isID || idx >= len(call.Call.Args) {
+			return v
+		}
+		v = call.Call.Args[idx]
+	}
+	return v
+}
+
+// identityParam: fn has one result and every return yields the same parameter (not a captured variable).
+func identityParam(fn *ssa.Function) (int, bool) {
+	if fn.Signature.Results().Len() != 1 {
+		return 0, false
+	}
+	var par *ssa.Parameter
+	n := 0
+	for _, ret := range returnsOf(fn) {
+		p, ok := ret.Results[0].(*ssa.Parameter)
+		if !ok || (par != nil && p != par) {
+			return 0, false
+		}
+		par = p
+		n++
+	}
+	if n == 0 || par == nil {
+		return 0, false
+	}
+	for i, q := range fn.Params {
+		if q == par {
+			return i, true // static calls pass the receiver as argument 0, as fn.Params does
+		}
+	}
+	return 0, false
+}
+
+func (fx *Facts) aliasesOf0(v ssa.Value) []ssa.Value {
 	out := []ssa.Value{v}
 	// a variable kept in registers: the phis the value flows into may hold it
 	seenPhi := map[*ssa.Phi]bool{}
